@@ -152,14 +152,19 @@ PROPS = {
     "C14": {
         "units": ["compact", "glue"],
         "bounded_ops": [
-            {"op": "lonlat_to_cell", "budget": 600, "what": "lonlat_to_cell / lonlat_to_estimate are NOT under contract (float "
-             "arithmetic, closures, HashSet in their bodies): bounded stand-in - for extreme and random lon/lat x i32 resolutions the "
-             "call returns, and an Ok result is a canonical ID of the requested resolution"},
+            {"op": "lonlat_to_cell", "budget": 600, "what": "lonlat_to_estimate is NOT under contract (float: nearest face, projection, "
+             "ij_to_s) and lonlat_to_cell is verified against an ASSUMED contract for it: bounded cross-check on the real code - for "
+             "extreme and random lon/lat x i32 resolutions the call returns, and an Ok result is a canonical ID of the requested "
+             "resolution"},
         ],
         "rlimit": 30,
         "level": "proof",
         "assumptions": STD_ASSUME + [
             "float layer (projections, tiling, pentagon geometry) assumed total; only the integer arguments handed to it are obligations",
+            "lonlat_to_cell is verified (Err for resolutions outside -1..29; an Ok result is a canonical ID of the requested resolution; "
+            "cells[0] exists) with its float expressions, HashSet and sort_by replaced by stubs (item-local rewrites listed in the "
+            "evidence) and lonlat_to_estimate as an external stub whose ASSUMED contract is: result carries the requested resolution, "
+            "face id < 12, segment < 5",
             "allocation failure not modelled; calls whose honest fan-out exceeds 4^8 are out of scope (uncompact_scope)",
             "internal functions (serialize, is_first_child, get_stride, get_num_children) carry preconditions derived from "
             "their call sites; each is an obligation at every call site in the units",
